@@ -34,6 +34,8 @@ ScalarU64_SetBytes ScalarU64_ToBytes ScalarU64_FromMontgomery ScalarU64_Montgome
 ScalarU32_MontgomeryReduce ScalarU32_Add ScalarU32_Sub ScalarU32_SetBytes ScalarU32_ToBytes ScalarU32_FromMontgomery ScalarU32_MontgomeryMul""".split()}
 L0_FIELD = {k: v for k, v in L0_THMS.items() if "Field" in k}
 L0_SCALAR = {k: v for k, v in L0_THMS.items() if "Scalar" in k}
+# the limb arithmetic every curve-level property stands on (Mul121666 is used by the Montgomery ladder only)
+L0_FIELD_CORE = {k: v for k, v in L0_FIELD.items() if "Mul121666" not in k}
 IR_CORE = {"Voi.IR.Check": ["Voi.IR.check_sound", "Voi.IR.run_sound", "Voi.IR.srun_sound", "Voi.IR.wrapsOK_sound"]}
 CACHE_THMS = ["Voi.Props.CacheInv." + n for n in """upsert_spec verify_transparent verifyExpanded_expand verify_eq_spec addToBatch_transparent
 cacheOK_run verify_after_history""".split()]
@@ -133,6 +135,13 @@ PROPS["C20"] = dict(level="proof", gens=["consts"], streams=[("K0", 2200)], conf
                     theorems={"Voi.Props.C20": C20_THMS},
                     explanation="every package-level constant and table entry (both limb encodings), dumped by interpreting the real initialisers, equals its defining value: kernel-evaluated; "
                                 "the run-time tables (incl. the AVX2 tables built in init) are compared exhaustively by stream K0 in four configurations")
+# Foundations: a property above the limb level also re-checks the regenerated limb-level obligations of the arithmetic it
+# executes, so that a rare-input defect below it (a dropped carry at 2^-38) breaks ITS check and not only C04/C05's.
+for _k, _found in {"C01": {**L0_FIELD_CORE, **L0_SCALAR}, "C02": {**L0_FIELD_CORE, **L0_SCALAR}, "C03": L0_FIELD_CORE, "C07": L0_FIELD,
+                   "C09": {**L0_FIELD_CORE, **L0_SCALAR}, "C10": L0_FIELD_CORE, "C11": L0_FIELD_CORE, "C12": {**L0_FIELD_CORE, **L0_SCALAR},
+                   "C14": L0_FIELD_CORE, "C15": {**L0_FIELD_CORE, **L0_SCALAR}}.items():
+    PROPS[_k]["theorems"] = {**IR_CORE, **_found, **PROPS[_k]["theorems"]}
+    PROPS[_k]["gens"] = sorted(set(PROPS[_k].get("gens") or []) | {"go2ir"})
 NOT_YET = {}
 for _k, _c in PROPS.items():
     assert _c.get("configs_quick") and _c.get("configs_thorough"), "property %s lacks a configuration list" % _k
